@@ -194,9 +194,9 @@ def r5(ctx):
     rv = ret_values(b)
     e = {}
     ok = len(rv) == 1 and match(core(rv[0][0]), ('field', Call('into_inner', Call('fold_while', Pred(lambda u: u[0] in ('arg', 'var')), ('agg', 'tuple', '', (Const(0), Const(0))), Cap('clo'))), 0), e)
-    ctx.require(ok, b, 'fold', 'count_until = iter.fold_while((0, 0), f).into_inner().0', 'count_until = %s' % [show_in(b, v) for v, _ in rv])
     if not ok:
-        return
+        return _count_until_loop(ctx, b, rv)
+    ctx.require(ok, b, 'fold', 'count_until = iter.fold_while((0, 0), f).into_inner().0', 'count_until = %s' % [show_in(b, v) for v, _ in rv])
     c = closure_of(ctx, e['clo'])
     kinds = {}
     nxt = ('bin', 'Add', ('field', ('arg', 2, ANY), 1), Call('CharString::char_byte_len', ANY, ('arg', 3, ANY)))
@@ -218,3 +218,45 @@ def r5(ctx):
     ok = kinds.get('done') == (True, True) and kinds.get('continue') == (False, True)
     ctx.require(ok, c, 'budget-test', 'stop (without counting) when acc + len(next) > budget, else count it and accumulate',
                 'count_until step is %s: a character that straddles the budget is counted, a context can exceed the maximum' % kinds)
+
+
+def _count_until_loop(ctx, b, rv):
+    """loop form of count_until: `for idx in iter { let next = acc + len(idx); if next > max { break } count += 1; acc = next }`"""
+    from rules.common import iteration_table
+    from analysis import poly
+    if len(rv) != 1 or core(rv[0][0])[0] != 'var':
+        raise AnchorMissing('count_until: neither a fold_while nor a counting loop (returns %s)' % [show_in(b, v)[:60] for v, _ in rv])
+    cnt = core(rv[0][0])[2]
+    lps = cfg.loops(b)
+    if len(lps) != 1:
+        raise AnchorMissing('count_until: the counting loop')
+    loop = lps[0]
+    accs = [l for l in state_locals(b, r'^usize$') if l != cnt]
+    if len(accs) != 1:
+        raise AnchorMissing('count_until: the byte accumulator (found %d)' % len(accs))
+    acc = accs[0]
+    rows = iteration_table(b, loop, {'count': cnt, 'acc': acc})
+    if not rows:
+        raise AnchorMissing('count_until: iteration paths')
+    a0 = ('var', b.var_name(acc) or '', acc)
+    ok = True
+    why = ''
+    for r in rows:
+        newacc = r['env'].get(acc)
+        okr = r['delta']['count'] == 1 and newacc is not None
+        if okr:
+            d = poly._add(poly.poly(newacc), poly.poly(a0), -1)
+            okr = len(d) == 1 and 'char_byte_len' in str(list(d.keys())[0]) and list(d.values()) == [1]
+        if okr:
+            # the continuing path is taken only when the NEW accumulator is within the budget
+            okr = any((pol is False and core(t)[0] == 'bin' and core(t)[1] == 'Gt' and poly.poly(core(t)[2]) == poly.poly(newacc) and match(core(t)[3], ('arg', 2, ANY))) or
+                      (pol is True and core(t)[0] == 'bin' and core(t)[1] == 'Le' and poly.poly(core(t)[2]) == poly.poly(newacc) and match(core(t)[3], ('arg', 2, ANY)))
+                      for t, pol in r['atoms'])
+        if not okr:
+            ok = False
+            why = 'count += %s, acc := %s under %s' % (r['delta']['count'], show_in(b, newacc)[:60] if newacc is not None else '?',
+                                                       [('' if p_ else '!') + show_in(b, t)[:50] for t, p_ in r['atoms']])
+    ctx.require(ok, b, 'budget-test', 'a character is counted (and accumulated) only when acc + len(next) <= budget; otherwise the loop stops',
+                'count_until step: %s: a character that straddles the budget is counted, a context can exceed the maximum' % why)
+    inits = {l: [core(v) for site, v in local_defs(b, l) if site.bb not in loop.blocks] for l in (cnt, acc)}
+    ctx.require(all(len(v) == 1 and match(v[0], Const(0)) for v in inits.values()), b, 'fold', 'count and accumulated length start at 0', None)
